@@ -519,6 +519,61 @@ Definition ldap_envelope (stream : bytes) : envelope :=
   | _ => EShort
   end.
 
+(* what go-asn1-ber itself refuses in a buffer whose lengths fit: a high tag number whose
+   first tag octet carries no value bits, more than 9 tag octets, and an end-of-contents
+   value (identifier 00, length 0) as a child of a definite-length value *)
+Definition ident_ok (b : bytes) : bool :=
+  match b with
+  | [] => false
+  | b0 :: r =>
+      if (N.land b0 31 =? 31)%N
+      then negb (N.land (nth 0 r 0%N) 127 =? 0)%N && (cont_run r + 1 <=? 9)
+      else true
+  end.
+
+Fixpoint lib_ok_loop (inner : bytes -> bool) (child : bool) (fuel : nat) (b : bytes) : bool :=
+  match b with
+  | [] => true
+  | b0 :: _ =>
+      match fuel with
+      | O => false
+      | S f =>
+          match gen_hdr 8 b with
+          | None => false
+          | Some (c, i, l) =>
+              if zlen b - i <? l then false
+              else ident_ok b &&
+                   negb (child && (b0 =? 0)%N && (l =? 0)) &&
+                   (if c then inner (slice b i (i + l)) else true) &&
+                   lib_ok_loop inner child f (skipn (Z.to_nat (i + l)) b)
+          end
+      end
+  end.
+
+Fixpoint lib_ok (levels : nat) (child : bool) (b : bytes) : bool :=
+  match levels with
+  | O => false
+  | S d => lib_ok_loop (lib_ok d true) child (length b) b
+  end.
+
+(* the well-formed request the systematic scenarios start with: messageID 1, anonymous bind *)
+Definition LDAP_PREFIX : bytes := [2; 1; 1; 96; 7; 2; 1; 3; 4; 0; 128; 0]%N.
+
+(* does the server answer the first message of the stream?  It does when readPacket
+   hands a buffer to the library, the library decodes it, and it is an LDAPMessage
+   (universal sequence) that starts with that request (bind handler replies). *)
+Definition ldap_answers (stream : bytes) : bool :=
+  match ldap_envelope stream with
+  | EOk buf =>
+      lib_ok 40 false buf &&
+      match gen_hdr 8 buf with
+      | Some (_, i, _) => (nth 0 buf 0 =? 48)%N &&
+                          eqb_bytes (firstn 12 (skipn (Z.to_nat i) buf)) LDAP_PREFIX
+      | None => false
+      end
+  | _ => false
+  end.
+
 (* the first message of a connection: refused => Handle returns the error *)
 Definition ldap_first (stream : bytes) : option res :=
   match ldap_envelope stream with
